@@ -18,7 +18,7 @@ RULE = ("inputs = for each base path (rendering of one universe Sid per path-typ
         "component, append '/x', '/', newline, an extension, remove the last component, swap the root for the other "
         "configuration's, a foreign path. Each evaluated cold, after the other configuration resolved the same string, and (paths "
         "holding '?' or ':') after the Sid that the result's string denotes was asked for its path. "
-        "The whole space is run once per first-loaded path configuration. distinct = distinct (path, configuration, first-loaded); non-trivial = differs from a valid path by <= k edits (all).")
+        "The base paths exist on disk, each base file with a non-conforming symbolic link to it. The whole space is run once per first-loaded path configuration. distinct = distinct (path, configuration, first-loaded); non-trivial = differs from a valid path by <= k edits (all).")
 ASSUMPTIONS = ["a typed result must satisfy str(result.path(c)) == p (the statement says 'exactly p'; '//' or a trailing '/' are other strings)"]
 
 
@@ -294,6 +294,7 @@ def run_shard(sh):
     if "first_index" in sh:
         sh = dict(sh, first=names[sh["first_index"]])
     touch_first(sh.get("first"))
+    populate(prefs, bases)
     rec = Recorder(sh["index"], sh["count"], sh["seed"])
     k = 1 if sh["tier"] == "c20" else 2
     for p, c in gen(ref, prefs, bases, names, k, owners):
@@ -321,6 +322,33 @@ def run_shard(sh):
     return res
 
 
+def populate(prefs, bases):
+    """The base paths exist on disk (folders and files), and next to every base file there is a symbolic link to it under a
+    name that conforms to no template (the extension dot replaced by 'X', one of the generated edits): what a path resolves
+    to is a matter of its spelling, not of which entry of the file system it happens to denote."""
+    from mc import env
+    env.clear_tree()
+    for c, typ, toks in bases:
+        full = join(toks)
+        last = [i for i, t in enumerate(toks) if t[0] == "lit" and "." in t[1] and i > 0]
+        is_file = bool(last) and toks[-1][0] == "key" and last[-1] == len(toks) - 2
+        try:
+            if is_file:
+                os.makedirs(os.path.dirname(full), exist_ok=True)
+                if not os.path.lexists(full):
+                    open(full, "w").close()
+                e = [list(x) for x in toks]
+                lit = e[-2][1]
+                ci = lit.rfind(".")
+                e[-2][1] = lit[:ci] + "X" + lit[ci + 1:]
+                if not os.path.lexists(join(e)):
+                    os.symlink(full, join(e))
+            else:
+                os.makedirs(full, exist_ok=True)
+        except OSError:
+            pass
+
+
 def touch_first(first):
     """Load the given path configuration before any other one is touched (no-op once configurations are loaded)."""
     if first:
@@ -332,6 +360,7 @@ def replay_case(kind, case):
     if len(case) > 3:
         touch_first(case[3])
     ref, prefs, owners, bases, names = setup("thorough")
+    populate(prefs, bases)
     v = check_case(ref, prefs, owners, case[:3])[0]
     if case[1] is None:
         v = [dict(x, signature=x["signature"] + "/no-config-argument") for x in v]
